@@ -1,10 +1,10 @@
 package sym
 
 import (
-	"os"
 	"bufio"
 	"fmt"
 	"io"
+	"os"
 	"os/exec"
 	"strconv"
 	"strings"
@@ -23,21 +23,21 @@ func (r Result) String() string { return [...]string{"unsat", "sat", "unknown"}[
 
 // Solver is one SMT solver process driven over a pipe.
 type Solver struct {
-	Kind    string // z3 | z3-new | cvc5
-	cmd     *exec.Cmd
-	in      io.WriteCloser
-	out     *bufio.Reader
-	buf     strings.Builder
-	emitted map[int32]bool
-	declUF  map[string]bool
-	Queries int
+	Kind                   string // z3 | z3-new | cvc5
+	cmd                    *exec.Cmd
+	in                     io.WriteCloser
+	out                    *bufio.Reader
+	buf                    strings.Builder
+	emitted                map[int32]bool
+	declUF                 map[string]bool
+	Queries                int
 	NSat, NUnsat, NUnknown int
-	Time    time.Duration
-	LastErr string
-	timeoutMs int
-	Log     io.Writer // optional transcript
-	dead    bool
-	runOpen bool
+	Time                   time.Duration
+	LastErr                string
+	timeoutMs              int
+	Log                    io.Writer // optional transcript
+	dead                   bool
+	runOpen                bool
 }
 
 func NewSolver(kind string, timeoutMs int) (*Solver, error) {
